@@ -408,6 +408,86 @@ def _sched_replay(mname, order_name, arrname):
   return _rp
 
 
+def unit_contact_jac_order():
+  """Cross-launch schedule property: efc rows of contacts are handed out by atomic_add in _efc_contact_init, so the contact ids
+  along the efc rows of a world are in WHATEVER order those threads ran.  The dense contact Jacobian kernel walks the rows of a
+  world serially and caches per-contact tiles: the row it writes must depend only on that row's own contact, not on which
+  contact the previous rows belong to (decided with the block-collective tile interpreter; replay = real kernel, launch_tiled)."""
+
+  def run(ctx):
+    import json
+
+    import numpy as np
+    import warp as wp
+
+    from mujoco_warp._src import constraint, support, types
+    from wsym import tiles
+
+    TS, NV, NJ, NC, NB = 2, 2, 3, 3, 3
+    k = constraint._efc_contact_jac_dense(TS, types.ConeType.PYRAMIDAL)
+    locator = f"mujoco_warp._src.constraint:_efc_contact_jac_dense({TS}, types.ConeType.PYRAMIDAL)"
+    ctx.encode(k, support._compute_jacp, support._compute_jacr)
+    ctx.bound(tile_size=TS, nv=NV, njmax=NJ, ncon=NC, nbody=NB, rows=2, note="one block (world 0, dof block 0), one lane; two contact rows, condim 1 each (pyramidal)")
+    shapes = {"body_rootid": [NB], "geom_bodyid": [NB], "body_isdofancestor": [NB, NV], "ne_in": [1], "nf_in": [1], "nl_in": [1], "nefc_in": [1], "qvel_in": [1, NV], "subtree_com_in": [1, NB], "cdof_in": [1, NV],
+              "contact_efc_address_in": [NC, 10], "efc_id_in": [1, NJ], "condim_in": [NC], "geom_in": [NC], "pos_in": [NC], "frame_in": [NC, 3], "friction_in": [NC, 5], "efc_J_out": [1, NJ, NV], "efc_Jqvel_out": [1, NJ]}
+    args = kh.make_args(k, shapes=shapes, scalars={"njmax_in": NJ, "nv_padded": NV}, mode="dense")
+    replay.snapshot_initial(args)
+    cell = lambda lab: args[lab].cell
+    pre = lambda lab, *i: cell(lab).d0[0][cell(lab).flat(i)]
+    it, _ = kh.run(k, args, tid=(0, 0, 0), interp=tiles.BlockInterp(unroll=NJ, float_uf=True))  # float products uninterpreted: the claim is about WHICH data a row uses
+    c0, c1 = pre("efc_id_in", 0, 0), pre("efc_id_in", 0, 1)
+    geoms = [x for c in range(NC) for x in (cell("geom_in").d0[0][c], cell("geom_in").d0[1][c])]
+    bg = [core.zbool(a) for a in it.assumes] + [pre("ne_in", 0) == 0, pre("nf_in", 0) == 0, pre("nl_in", 0) == 0, pre("nefc_in", 0) == 2, c0 >= 0, c0 < NC, c1 >= 0, c1 < NC, c0 != c1]
+    bg += [z3.And(g >= 0, g < NB) for g in geoms] + [z3.And(x >= 0, x < NB) for x in cell("geom_bodyid").d0[0]] + [z3.And(x >= 0, x < NB) for x in cell("body_rootid").d0[0]] + [x == 1 for x in cell("condim_in").d0[0]]
+    ctx.assume("two live contact rows (ne = nf = nl = 0, nefc = 2) of two different contacts with condim 1; ids in range", "the contact ids of rows 0 and 1 are in ARBITRARY order (any schedule of _efc_contact_init)")
+    other = z3.Int("contact_of_row0_other")
+    sub = lambda e: z3.substitute(core.to_z3(e), (c0, other))
+    sess = ctx.session(bg + [sub(b) for b in bg] + [other >= 0, other < NC, other != c1])
+    ctx.reach(sess, "twin:descending-contact-ids", z3.And(c0 > c1, other < c1))
+
+    def rp(model):
+      conc = replay.concretize_args(model, k, args)
+      specs = kh.arg_specs(k)
+      kern = replay.locate(locator)
+      rng = np.random.default_rng(11)
+      outs = []
+      rows0 = [int(kh.mval(model, c0)), int(kh.mval(model, other))]
+      floats = None
+      for r0 in rows0:
+        vals, arrays = replay.build_arrays(conc, specs)
+        if floats is None:
+          floats = {lab: rng.uniform(0.3, 1.5, size=a.numpy().shape).astype(a.numpy().dtype) for lab, a in arrays.items() if a.numpy().dtype.kind == "f"}
+        for lab, v in floats.items():
+          arrays[lab].assign(v)
+        ids = arrays["efc_id_in"].numpy()
+        ids[0, 0] = r0
+        arrays["efc_id_in"].assign(ids)
+        # a non-degenerate instance of the integer structure (the solver's model may make every contact geometrically identical
+        # under uninterpreted float products): distinct bodies / roots per contact, every dof moves every body
+        arrays["body_isdofancestor"].assign(np.ones((NB, NV), dtype=np.int32))
+        arrays["geom_bodyid"].assign(np.arange(NB, dtype=np.int32))
+        arrays["body_rootid"].assign(np.arange(NB, dtype=np.int32))
+        arrays["geom_in"].assign(np.array([[c, (c + 1) % NB] for c in range(NC)], dtype=np.int32))
+        arrays["efc_J_out"].fill_(0.0)
+        arrays["efc_Jqvel_out"].fill_(0.0)
+        nin = len(vals) - 2
+        wp.launch_tiled(kern, dim=(1, 1), inputs=vals[:nin], outputs=vals[nin:], block_dim=32, device="cpu")
+        wp.synchronize()
+        outs.append(arrays["efc_J_out"].numpy()[0, 1].copy())
+      bad = not np.allclose(outs[0], outs[1], rtol=1e-5, atol=1e-6)
+      path = os.path.join(report.VERIF, "replays", PID, "contact_jac_order.json")
+      os.makedirs(os.path.dirname(path), exist_ok=True)
+      json.dump({"property": PID, "kernel": locator, "how": "wp.launch_tiled(kernel, dim=(1, 1), block_dim=32) twice on identical arrays except efc_id[0, 0] (the contact that owns the PREVIOUS row)", "contact of row 1": int(kh.mval(model, c1)), "contact of row 0 in the two runs": rows0, "efc_J row 1 in the two runs": [o.tolist() for o in outs]}, open(path, "w"), indent=1)
+      return bad, path
+
+    for j in range(NV):
+      Jv = cell("efc_J_out").d[0][cell("efc_J_out").flat((0, 1, j))]
+      ctx.prove(sess, f"row-depends-only-on-own-contact/J[1,{j}]", core.to_z3(Jv) == sub(Jv), True, names={"contact_row0": c0, "contact_row1": c1, "contact_row0_other": other}, replay=rp,
+                desc="_efc_contact_jac_dense: the Jacobian row of a contact depends on which contact owns the previous efc row (per-contact tiles not refreshed): results depend on the thread order of the row allocation launch")
+
+  return ("schedule/contact-jac-dense/row-order", run)
+
+
 _old_main = main
 
 
@@ -419,6 +499,7 @@ def main(tier, seed, only=None):
   if listed is not None and not os.environ.get("C11_ALL"):
     names = [n for n in names if n in listed]
   units = [unit_schedule("fork", o) for o in (("rev", "rot", "evenodd") if tier == "thorough" else ("rev", "evenodd"))]
+  units.append(unit_contact_jac_order())
   units += [unit_kernel(n) for n in names]
   if only:
     units = [u for u in units if any(o in u[0] for o in only)]
